@@ -11,6 +11,7 @@ import (
 	"io/ioutil"
 	"os"
 	"path/filepath"
+	"sort"
 	"strings"
 
 	"github.com/martian-lang/martian/martian/util"
@@ -216,7 +217,14 @@ func (parser *Parser) ParseSourceBytes(src []byte, srcPath string,
 		if checkSrc {
 			stagecodePaths := filepath.SplitList(os.Getenv("PATH"))
 			seenPaths := make(map[string]struct{}, len(incPaths)+len(stagecodePaths))
+			// Search the directories of the source files in a repeatable
+			// order.
+			fnames := make([]string, 0, len(ast.Files))
 			for f := range ast.Files {
+				fnames = append(fnames, f)
+			}
+			sort.Strings(fnames)
+			for _, f := range fnames {
 				p := filepath.Dir(f)
 				if _, ok := seenPaths[p]; !ok {
 					stagecodePaths = append(stagecodePaths, p)
